@@ -37,6 +37,7 @@ import (
 	"github.com/semihalev/sdns/middleware"
 	mcache "github.com/semihalev/sdns/middleware/cache"
 	"github.com/semihalev/sdns/middleware/edns"
+	"github.com/semihalev/sdns/middleware/forwarder"
 )
 
 // ---------------------------------------------------------------- parsing
@@ -342,6 +343,34 @@ func store() *mcache.Store { return mcache.VerifC03Store(pc) }
 type pipeCfg struct {
 	f4, f6, m4, m6, prefetch int
 	nets                     []string // [ecs] client_networks allow-list
+	fwd                      bool     // forwarder mode: a miss goes through the real forwarder to a loopback upstream
+}
+
+// the loopback upstream of the forwarder route: answers like the in-process upstream stub does,
+// shaped by fwdAns (set by the op that is running).
+var (
+	fwdAddr string
+	fwdAns  = &ansSpec{scopeBits: -1}
+	pf      *forwarder.Forwarder
+)
+
+func fwdUpstream() string {
+	if fwdAddr != "" {
+		return fwdAddr
+	}
+	pconn, err := net.ListenPacket("udp", "127.0.0.1:0")
+	if err != nil {
+		panic(err)
+	}
+	srv := &dns.Server{PacketConn: pconn, Handler: dns.HandlerFunc(func(w dns.ResponseWriter, req *dns.Msg) {
+		if len(req.Question) != 1 {
+			return
+		}
+		_ = w.WriteMsg(up.answerWith(req, fwdAns))
+	})}
+	go func() { _ = srv.ActivateAndServe() }()
+	fwdAddr = pconn.LocalAddr().String()
+	return fwdAddr
 }
 
 var curCfg pipeCfg
@@ -457,6 +486,12 @@ func newPipe(ecs bool, pcf pipeCfg) {
 	if ecs {
 		cfg.ECS = config.ECSConfig{Enabled: true, ForwardV4Max: uint8(pcf.f4), ForwardV6Max: uint8(pcf.f6),
 			MinScopeV4: uint8(pcf.m4), MinScopeV6: uint8(pcf.m6), ClientNetworks: pcf.nets}
+	}
+	pf = nil
+	if pcf.fwd {
+		cfg.ForwarderServers = []string{fwdUpstream()}
+		cfg.DNSSEC = "on"
+		pf = forwarder.New(cfg)
 	}
 	pc = mcache.New(cfg)
 	// the internal sub-pipeline the decoded CNAME chase queries: the same cache, then a miss
@@ -780,7 +815,15 @@ func serve(route string, r reqSpec, ans *ansSpec) (out string, reply *dns.Msg, v
 		ch.Cancel()
 	})
 	before := mcache.VerifC03WireCounters()
-	ch := middleware.NewChain([]middleware.Handler{pe, pc, terminal})
+	handlers := []middleware.Handler{pe, pc, terminal}
+	askedBefore := len(up.asked)
+	if ans != nil && pf != nil {
+		// forwarder route: the miss leaves through the real forwarder to the loopback upstream
+		fwdAns = ans
+		up.nextID = ans.id
+		handlers = []middleware.Handler{pe, pc, pf}
+	}
+	ch := middleware.NewChain(handlers)
 	if route == "wire" {
 		req := new(middleware.Request)
 		if !req.ParseWire(rawQuery(r), time.Now(), nil) {
@@ -799,6 +842,9 @@ func serve(route string, r reqSpec, ans *ansSpec) (out string, reply *dns.Msg, v
 		if after[i] > before[i] {
 			via = n
 		}
+	}
+	if ans != nil && pf != nil && len(up.asked) > askedBefore && writer.Written() {
+		return "answered", writer.Msg(), "via-forwarder"
 	}
 	if reached {
 		if writer.Written() {
@@ -1327,9 +1373,14 @@ func execPipe(f []string) vlib.Res {
 			v := strings.Split(f[3], ",")
 			pcf = pipeCfg{f4: vlib.Atoi(v[0]), f6: vlib.Atoi(v[1]), m4: vlib.Atoi(v[2]), m6: vlib.Atoi(v[3]), prefetch: vlib.Atoi(v[4])}
 		}
-		if len(f) > 4 && strings.HasPrefix(f[4], "nets=") {
-			for _, n := range strings.Split(f[4][5:], ";") {
-				pcf.nets = append(pcf.nets, parseScope(n).String())
+		for _, t := range f[min(4, len(f)):] {
+			switch {
+			case strings.HasPrefix(t, "nets="):
+				for _, n := range strings.Split(t[5:], ";") {
+					pcf.nets = append(pcf.nets, parseScope(n).String())
+				}
+			case t == "fwd":
+				pcf.fwd = true
 			}
 		}
 		newPipe(f[2] == "on", pcf)
@@ -1493,7 +1544,11 @@ func execPipe(f []string) vlib.Res {
 			}
 		}
 		askedCD := rec.cd
-		if ans.flipCD {
+		if pf != nil {
+			// forwarder route: the answer belongs to the partition the CLIENT asked in, whatever CD bit the
+			// upstream echoes (the forwarder hands the client's own bit back)
+			askedCD = r.id.cd
+		} else if ans.flipCD {
 			// the write-back keys on the RESPONSE's CD bit ("noticed"): in-tree handlers never change it
 			judgeTags = append(judgeTags, "response-cd-differs")
 			if !strictMode() {
